@@ -159,14 +159,43 @@ def from_dtree(prog):
     clause = VF(1, "Leaf", "clause")
     lit0 = C("BottomUpPlan::literal", C("label", C("index", clause, K(0))), C("polarity", C("index", clause, K(0))))
     ba = bool_arms(leaf)
-    ok_empty = ok_unit = ok_fold = "shape not recognised"
-    if ba and match(C("is_empty", clause), ba[0]) is None:
+    ok_empty = ok_unit = ok_fold = "?shape not recognised"
+    # second skeleton: match clause.split_first() { None => ConstFalse, Some((first, rest)) => loop-folded `or` }
+    lf = strip(leaf)
+    if lf[0] == "gamma" and show(strip(lf[1])).startswith("discr(split_first(") and "clause" in show(lf[1]):
+        arms2 = {lab: strip(v) for lab, v in lf[2]}
+        none_arm, some_arm = arms2.get("0"), arms2.get("1")
+        ok_empty = match(AggV("ConstFalse"), none_arm) if none_arm is not None else "?no arm for the empty clause"
+        ok_unit = ok_fold = "?loop form not recognised"
+        if some_arm is not None and some_arm[0] == "mu":
+            init = strip(te.mu_init.get((some_arm[1], some_arm[2]), ("top",)))
+            ups = te.mu_update.get((some_arm[1], some_arm[2]), [])
+
+            def is_lit_of(t, src_pred):
+                t = strip(t)
+                if not (mir.is_call(t, "literal") and len(t[2]) == 2):
+                    return False
+                a, b = strip(t[2][0]), strip(t[2][1])
+                return mir.is_call(a, "label") and mir.is_call(b, "polarity") and strip(a[2][0]) == strip(b[2][0]) and src_pred(show(strip(a[2][0])))
+            ok_unit = None if is_lit_of(init, lambda s_: "split_first" in s_ and s_.endswith(".0.0")) else \
+                "the accumulator starts as %s, not as the literal of the first element" % show(init)[:80]
+            ok_fold = None
+            if len(ups) != 1:
+                ok_fold = "?accumulator update not recognised"
+            else:
+                u = strip(ups[0])
+                if not (mir.is_call(u, "or") and any(strip(x) == some_arm for x in u[2]) and
+                        any(is_lit_of(x, lambda s_: "next(" in s_) for x in u[2])):
+                    ok_fold = "the accumulator is updated by %s, not by or(acc, literal(label(l), polarity(l)))" % show(u)[:90]
+    elif ba and match(C("is_empty", clause), ba[0]) is None:
         ok_empty = match(AggV("ConstFalse"), ba[2])
         inner = bool_arms(ba[1])
         if inner:
             cond = inner[0]
             is_len1 = (isinstance(cond, tuple) and cond[0] == "bin" and cond[1] == "Eq"
                        and match(C("len", clause), cond[2]) is None and match(K(1), cond[3]) is None)
+            if not is_len1 and isinstance(cond, tuple) and cond[0] == "bin" and cond[1] == "Eq" and "len(" in show(cond):
+                ok_unit = ok_fold = "the unit-clause case tests %s, not the number of literals of the clause" % show(cond)[:60]
             if is_len1:
                 ok_unit = match(lit0, inner[2])
                 ok_fold = match(C("fold", C("skip", clause, K(1)), lit0, ANY()), inner[1])
@@ -178,12 +207,14 @@ def from_dtree(prog):
                         ok_fold = match(C("BottomUpPlan::or", P(2),
                                           C("BottomUpPlan::literal", C("label", P(3)), C("polarity", P(3))),
                                           comm=True), kids[0].terms.ret)
-    out.append(inst("DP", key + ":Leaf-empty", VIOLATION if ok_empty else OK, fn, None,
-                    ok_empty or "empty clause ↦ ConstFalse"))
-    out.append(inst("DP", key + ":Leaf-unit", VIOLATION if ok_unit else OK, fn, None,
-                    ok_unit or "unit clause ↦ literal(label, polarity) of its literal"))
-    out.append(inst("DP", key + ":Leaf-fold", VIOLATION if ok_fold else OK, fn, None,
-                    ok_fold or "clause ↦ fold of `or` over literal(label, polarity), seeded with the first literal"))
+    def v_(e):
+        return OK if not e else (UNDECIDED if str(e).startswith("?") else VIOLATION)
+    out.append(inst("DP", key + ":Leaf-empty", v_(ok_empty), fn, None,
+                    (ok_empty or "").lstrip("?") or "empty clause ↦ ConstFalse"))
+    out.append(inst("DP", key + ":Leaf-unit", v_(ok_unit), fn, None,
+                    (ok_unit or "").lstrip("?") or "unit clause ↦ literal(label, polarity) of its literal"))
+    out.append(inst("DP", key + ":Leaf-fold", v_(ok_fold), fn, None,
+                    (ok_fold or "").lstrip("?") or "clause ↦ fold of `or` over literal(label, polarity), seeded with the first literal"))
     return out
 
 
